@@ -3,6 +3,7 @@
 // (fault enumeration); models, serialisations, clock offsets and surrounding history are sampled.
 #include "prof_common.h"
 
+#include <cstring>
 #include <map>
 #include <set>
 #include <sstream>
@@ -447,6 +448,98 @@ void profile_blast(RunCtx& ctx)
                                       where + " (inside declaration #" + std::to_string(idx) + "): a preceding declaration is missing or changed: " + d))
                         return;
                 }
+            }
+        }
+    }
+    // ---------------- element-level faults: C06 for diagnostics raised on an element, not on a text ----------------
+    // The reader attributes what the builder reports while it handles an element (a location, a template, its init, an
+    // empty system) to that element through a one-character dummy position. One model-level fault with a known
+    // culprit element is injected at a time; an error with the expected message must carry that element's path.
+    {
+        struct EF
+        {
+            int fault;
+            const char* msg;
+        };
+        static const EF efs[] = {{MF_DUP_LOC_NAME, "$Duplicate_definition_of"}, {MF_DUP_TEMPLATE_NAME, "$Duplicate_definition_of"},
+                                 {MF_INIT_IS_BRANCHPOINT, "$Location_expected"}, {MF_EMPTY_TEMPLATE, "$Missing_initial_location"},
+                                 {-1 /* blank system text */, "$syntax_error: $unexpected $end"}};
+        for (auto& ef : efs) {
+            const int st = step++;
+            if (!ctx.keep(st))
+                continue;
+            Model mf = pristine;
+            Rng fr2 = rng.fork();
+            bool has_dyn = false;
+            for (auto& t : mf.templs)
+                has_dyn |= t.dynamic;
+            if (ef.fault == MF_DUP_TEMPLATE_NAME && has_dyn)
+                continue;  // a second body for a dynamic template is "Inconsistent parameters", not a duplicate definition
+            if (ef.fault == -1)
+                mf.system_raw = rng.chance(0.5) ? " \n  " : "// nothing here\n";
+            else if (!apply_model_fault(mf, ef.fault, fr2))
+                continue;
+            // the culprit element
+            std::string expect;
+            if (ef.fault == -1)
+                expect = "/nta/system";
+            for (size_t ti = 0; ti < mf.templs.size() && expect.empty(); ++ti) {
+                const MTempl& t = mf.templs[ti];
+                const MTempl& t0 = pristine.templs[ti];
+                const std::string tp = "/nta/template[" + std::to_string(ti + 1) + "]";
+                if (ef.fault == MF_DUP_LOC_NAME) {
+                    for (size_t j = 0; j < t.locs.size(); ++j)
+                        for (size_t i2 = 0; i2 < j; ++i2)
+                            if (t.locs[j].docname() == t.locs[i2].docname())
+                                expect = tp + "/location[" + std::to_string(j + 1) + "]";
+                } else if (ef.fault == MF_DUP_TEMPLATE_NAME) {
+                    if (t.name != t0.name)
+                        expect = tp;
+                } else if (ef.fault == MF_INIT_IS_BRANCHPOINT) {
+                    if (!t.init_override.empty())
+                        expect = tp;
+                } else if (ef.fault == MF_EMPTY_TEMPLATE) {
+                    if (t.locs.empty() && !t0.locs.empty())
+                        expect = tp;
+                }
+            }
+            if (expect.empty())
+                continue;
+            Rng rr = render_rng;
+            CallSpec c;
+            c.entry = rng.below(3);
+            c.backend = B_DOC;
+            c.bytes = render_xml(mf, kn, rr);
+            c.sched = ctx.draw_sched(rng, false);
+            c.ceiling = default_ceiling(c.bytes.size());
+            Session s;
+            ctx.hint = std::string{"blast-element:"} + (ef.fault == -1 ? "blank-system" : model_fault_name(ef.fault));
+            CallResult r = ctx.call(s, c, st);
+            if (ctx.violations)
+                return;
+            ctx.event(std::string{"element "} + (ef.fault == -1 ? "blank-system" : model_fault_name(ef.fault)) + (r.threw ? " threw" : ""));
+            ctx.count("c06c-element-faults");
+            if (r.threw || !s.doc)
+                continue;
+            bool found = false, right = false;
+            std::string where_found;
+            for (auto& d : view_diagnostics(*s.doc)) {
+                if (!d.error || d.msg.compare(0, strlen(ef.msg), ef.msg) != 0)
+                    continue;
+                found = true;
+                if (d.path == expect)
+                    right = true;
+                else if (where_found.empty())
+                    where_found = d.path;
+            }
+            if (found)
+                ctx.count("c06c-element-faults-with-the-expected-error");
+            if (found && !right) {
+                const std::string fn = ef.fault == -1 ? "blank-system" : model_fault_name(ef.fault);
+                if (ctx.violation("C06", "error-attributed-elsewhere", std::string{"c06c|element|"} + fn,
+                                  std::string{"model fault "} + fn + ": the error '" + ef.msg + "' caused by " + expect +
+                                      " is attributed to " + where_found))
+                    return;
             }
         }
     }
